@@ -21,7 +21,7 @@ mod common;
 
 use super::super::*;
 use crate::cookiestash::CookieStash;
-use crate::packet::{AesSivCmac256, NoCipher};
+use crate::packet::{AesSivCmac256, Cipher, NoCipher};
 use common::{hex, kv, unhex, Rng, Run};
 use std::collections::{BTreeMap, VecDeque};
 use std::net::Ipv4Addr;
@@ -50,6 +50,41 @@ impl SourceController for RecController {
 const KEY_C2S: [u8; 32] = [7; 32];
 const KEY_S2C: [u8; 32] = [9; 32];
 const KEY_OTHER: [u8; 32] = [3; 32];
+
+/// a cipher that performs the real AES-SIV encryption and records the sealing (nonce, associated data, ciphertext,
+/// plaintext) — the entries of the ideal-AEAD table handed to the model in byte mode (stream `sm_bytes`)
+struct RecCipher {
+    inner: AesSivCmac256,
+    key: [u8; 32],
+    log: std::sync::Mutex<Vec<String>>,
+}
+
+impl zeroize::ZeroizeOnDrop for RecCipher {}
+
+impl RecCipher {
+    fn new(key: [u8; 32]) -> Self {
+        RecCipher { inner: AesSivCmac256::new(key.into()), key, log: std::sync::Mutex::new(vec![]) }
+    }
+}
+
+impl Cipher for RecCipher {
+    fn encrypt(&self, buffer: &mut [u8], plaintext_length: usize, associated_data: &[u8]) -> std::io::Result<crate::packet::EncryptResult> {
+        let pt = buffer[..plaintext_length].to_vec();
+        let r = self.inner.encrypt(buffer, plaintext_length, associated_data)?;
+        let nonce = &buffer[..r.nonce_length];
+        let ct = &buffer[r.nonce_length..r.nonce_length + r.ciphertext_length];
+        let h = |b: &[u8]| if b.is_empty() { "-".to_string() } else { hex(b) };
+        self.log.lock().unwrap().push(format!("{};{};{};{};{}", h(&self.key), h(nonce), h(associated_data), h(ct), h(&pt)));
+        Ok(r)
+    }
+    fn decrypt(&self, nonce: &[u8], ciphertext: &[u8], associated_data: &[u8]) -> Result<Vec<u8>, crate::packet::DecryptError> {
+        self.inner.decrypt(nonce, ciphertext, associated_data)
+    }
+    fn key_bytes(&self) -> &[u8] {
+        &self.key
+    }
+}
+
 
 fn cfg_cookie(len: usize, i: usize) -> Vec<u8> {
     vec![(i + 1) as u8; len]
@@ -160,6 +195,9 @@ struct World {
     target_filter: BloomFilter,
     reference: VecDeque<Vec<u8>>,
     cookie_tag: u32,
+    bytes_mode: bool,
+    last_seal: Option<String>,
+    sent_cookies: Vec<Vec<u8>>,
     // bookkeeping for the oracles
     meas_since_send: usize,
     sends: usize,
@@ -300,6 +338,9 @@ fn new_world(w: &[&str]) -> World {
         target_filter,
         reference,
         cookie_tag: 0,
+        bytes_mode: false,
+        last_seal: None,
+        sent_cookies: vec![],
         meas_since_send: 0,
         sends: 0,
         polls_since_usable: 0,
@@ -343,6 +384,7 @@ fn now_ns(w: &World) -> u128 {
 /// which property's oracle (and generator bias) a stream uses
 #[derive(Clone, Copy, PartialEq, Eq, Debug)]
 enum Prop {
+    C13,
     C07,
     C08,
     C09,
@@ -456,6 +498,33 @@ fn exec_timer(wd: &mut World, w: &[&str], run: &mut Run, prop: Prop, key: &mut S
                 _ => {}
             }
         }
+        if prop == Prop::C13 {
+            // C13's clauses evaluated on the implementation alone, against the ideal bounded queue `reference`
+            // (push at the back, drop the front beyond eight, pop at the front)
+            let n = s.ncookies + s.nplace;
+            match (&s.cookie_body, &oldest) {
+                (Some(body), Some(want)) => {
+                    if !(body.len() >= want.len() && body[..want.len()] == want[..] && body[want.len()..].iter().all(|b| *b == 0)) {
+                        let newer = wd.reference.iter().any(|c| body.len() >= c.len() && body[..c.len()] == c[..]);
+                        run.oracle_fail(if newer { "oldest_first" } else { "keeps_newest_eight" }, &format!("held_after={}", wd.reference.len()),
+                            "the cookie sent is not the oldest of the newest eight cookies received and not yet used");
+                    }
+                    if wd.sent_cookies.contains(body) {
+                        run.oracle_fail("each_cookie_sent_once", "", "a cookie was sent a second time");
+                    }
+                    wd.sent_cookies.push(body.clone());
+                    let missing = 8 - wd.reference.len();
+                    let limit = 724 / want.len().max(1);
+                    if n != missing.min(limit) || s.ncookies != 1 {
+                        run.oracle_fail("request_asks_gap", &format!("asked={} missing={} size_limit={}", n, missing, limit),
+                            "the request does not ask for exactly the missing number of cookies (or the size-limited number)");
+                    }
+                    run.hit(if missing <= limit { "c13-asks-missing" } else { "c13-size-limited" });
+                }
+                (Some(_), None) => run.oracle_fail("used_once_in_order", "held=0", "a cookie was sent although none should be held"),
+                (None, _) => run.oracle_fail("used_once_in_order", "cookie=none", "NTS request without a cookie"),
+            }
+        }
         if prop == Prop::C14 && s.len > 1024 {
             run.oracle_fail("fits_buffer", &format!("len={}", s.len), "request larger than the send buffer");
         }
@@ -466,6 +535,20 @@ fn exec_timer(wd: &mut World, w: &[&str], run: &mut Run, prop: Prop, key: &mut S
         wd.polls_since_usable += 1;
     } else if out.is_empty() {
         out = "none".into();
+    }
+    if prop == Prop::C13 && (out == "reset" || out == "demobilize") && past_reach_test {
+        // got past the reachability test and still no request: only without a cookie, or when it is too long
+        match &oldest {
+            None => run.hit("c13-reset-no-cookie"),
+            Some(c) if 724 / c.len().max(1) == 0 => run.hit("c13-reset-oversize"),
+            Some(_) => run.oracle_fail("request_asks_gap", "reset=1", "reset although a cookie of usable size was held"),
+        }
+    }
+    if prop == Prop::C13 {
+        let held = wd.source.observe("x".into(), ClockId(1)).nts_cookies;
+        if held != Some(wd.reference.len()) {
+            run.oracle_fail("keeps_newest_eight", &format!("held={:?} want={}", held, wd.reference.len()), "number of cookies held differs from min(8, received and not yet used)");
+        }
     }
     if out == "reset" || out == "demobilize" {
         run.hit(&format!("timer-{}", out));
@@ -549,6 +632,7 @@ fn resolve_ef_list(wd: &mut World, s: &str) -> String {
 }
 
 fn build_datagram(wd: &mut World, w: &[&str]) -> Vec<u8> {
+    wd.last_seal = None;
     if kv(w, "d.same") == Some("1") {
         return wd.last_bytes.clone();
     }
@@ -588,11 +672,22 @@ fn build_datagram(wd: &mut World, w: &[&str]) -> Vec<u8> {
     let packet: NtpPacket<'static> = (&d).into();
     let mut buf = vec![0u8; 32768];
     let mut cursor = Cursor::new(buf.as_mut_slice());
-    let res = match d.get("auth").map(|s| s.as_str()).unwrap_or("none") {
-        "s2c" => packet.serialize(&mut cursor, &AesSivCmac256::new(KEY_S2C.into()), None),
-        "c2s" => packet.serialize(&mut cursor, &AesSivCmac256::new(KEY_C2S.into()), None),
-        "other" => packet.serialize(&mut cursor, &AesSivCmac256::new(KEY_OTHER.into()), None),
-        _ => packet.serialize(&mut cursor, &NoCipher, None),
+    let sealing_key = match d.get("auth").map(|s| s.as_str()).unwrap_or("none") {
+        "s2c" => Some(KEY_S2C),
+        "c2s" => Some(KEY_C2S),
+        "other" => Some(KEY_OTHER),
+        _ => None,
+    };
+    let res = match sealing_key {
+        Some(k) => {
+            let c = RecCipher::new(k);
+            let r = packet.serialize(&mut cursor, &c, None);
+            let log = c.log.lock().unwrap();
+            assert!(log.len() <= 1, "harness: more than one sealing for one datagram");
+            wd.last_seal = log.first().cloned();
+            r
+        }
+        None => packet.serialize(&mut cursor, &NoCipher, None),
     };
     res.expect("harness: datagram description does not serialise");
     let n = cursor.position() as usize;
@@ -874,6 +969,17 @@ fn exec_incoming(wd: &mut World, w: &[&str], run: &mut Run, prop: Prop, key: &mu
             }
         }
     }
+    if prop == Prop::C13 {
+        let held = wd.source.observe("x".into(), ClockId(1)).nts_cookies;
+        if held != Some(wd.reference.len()) {
+            run.oracle_fail("keeps_newest_eight", &format!("held={:?} want={}", held, wd.reference.len()), "number of cookies held differs from min(8, received and not yet used)");
+        }
+        if accepted {
+            let ce = get("ce");
+            let k = if ce == "-" { 0 } else { ce.split(',').count() };
+            run.hit(&format!("c13-delivered-{}", if k > 8 { "9+".to_string() } else { k.to_string() }));
+        }
+    }
     if wd.source.have_deny_rstr_response {
         wd.deny_marked = true;
     }
@@ -885,7 +991,13 @@ fn exec_incoming(wd: &mut World, w: &[&str], run: &mut Run, prop: Prop, key: &mu
     oracle_missed_polls(wd, run, prop);
 
     // ---------------- op line for the model ----------------
-    let mut op = String::from("incoming");
+    let mut op = String::from(if wd.bytes_mode { "incomingb" } else { "incoming" });
+    if wd.bytes_mode {
+        // byte mode: the model computes the packet record from these bytes itself (parser model + ideal-AEAD
+        // table of the sealings performed so far in this case); the record below is only cross-checked
+        op.push_str(&format!(" key={} bytes={} seal={}", if wd.nts { hex(&KEY_S2C) } else { "-".to_string() },
+            if bytes.is_empty() { "-".to_string() } else { hex(&bytes) }, wd.last_seal.clone().unwrap_or_else(|| "-".to_string())));
+    }
     for t in w.iter().skip(1) {
         if t.starts_with("d.") || t.starts_with("dt=") || t.starts_with("sts=") || t.starts_with("rcv=") {
             op.push(' ');
@@ -990,7 +1102,8 @@ fn exec_case(ops: &[String], run: &mut Run, prop: Prop, rt: &tokio::runtime::Run
             let w: Vec<&str> = op.split_whitespace().collect();
             match w[0] {
                 "cfg" => {
-                    let wd = new_world(&w[1..]);
+                    let mut wd = new_world(&w[1..]);
+                    wd.bytes_mode = std::env::var("VERIF_STREAM").map(|s| s.starts_with("sm_bytes")).unwrap_or(false);
                     key.push_str(&format!("C{}{}{}", wd.nts as u8, proto_str(wd.source.protocol_version), wd.limits.0));
                     if prop == Prop::C14 {
                         key.push_str(kv(&w, "stash").unwrap_or("-"));
@@ -1036,6 +1149,11 @@ struct GenCfg {
     max: i8,
 }
 
+/// cookie sizes of the C13 stream (>= 4 so that the counter tag keeps every cookie distinct; 724 is the largest
+/// cookie that still yields a request, 725 and 800 make the timer reset; 90/91, 181/182, 362/363 straddle the
+/// size-limited counts 8, 4/3, 2/1)
+const C13_SIZES: &[usize] = &[4, 16, 64, 90, 91, 100, 100, 100, 104, 181, 182, 362, 363, 400, 724, 725, 800];
+
 fn gen_cfg(rng: &mut Rng, prop: Prop) -> (String, GenCfg) {
     let (min, max) = match rng.below(10) {
         0 => (0, 0),
@@ -1051,6 +1169,7 @@ fn gen_cfg(rng: &mut Rng, prop: Prop) -> (String, GenCfg) {
         _ => (4, 10),
     };
     let nts = match prop {
+        Prop::C13 => true,
         Prop::C07 => rng.chance(9, 10),
         Prop::C11 | Prop::C12 => rng.chance(1, 4),
         _ => rng.chance(2, 5),
@@ -1059,8 +1178,8 @@ fn gen_cfg(rng: &mut Rng, prop: Prop) -> (String, GenCfg) {
         match rng.below(20) {
             // (an NTS source is created with the version key exchange negotiated, V4 or V5; the two other states are
             // unreachable for it and only generated outside the C07 stream, for the model tie)
-            0 if prop != Prop::C07 => "up:8".to_string(),
-            1 if prop != Prop::C07 => "upd".to_string(),
+            0 if prop != Prop::C07 && prop != Prop::C13 => "up:8".to_string(),
+            1 if prop != Prop::C07 && prop != Prop::C13 => "upd".to_string(),
             2..=10 => "v4".to_string(),
             _ => "v5".to_string(),
         }
@@ -1084,10 +1203,12 @@ fn gen_cfg(rng: &mut Rng, prop: Prop) -> (String, GenCfg) {
     );
     if nts {
         let l = match rng.below(10) {
+            _ if prop == Prop::C13 => *rng.pick(C13_SIZES),
             0 => *rng.pick(&[0usize, 1, 90, 91, 103, 104, 181, 362, 724, 725]),
             _ => 100,
         };
         let c = match rng.below(6) {
+            _ if prop == Prop::C13 => rng.usize(0, 8),
             0 => rng.usize(0, 2),
             1 => rng.usize(3, 7),
             _ => 8,
@@ -1117,8 +1238,11 @@ fn gen_incoming(rng: &mut Rng, g: &GenCfg, prop: Prop, since_timer_ns: &mut u64)
         t.push_str(&format!(" d.raw={}", hex(&rng.bytes(n))));
         return t;
     }
+    if prop == Prop::C13 && rng.chance(5, 6) {
+        return t + &gen_clean_answer(rng, g, prop);
+    }
     if rng.chance(match prop { Prop::C11 => 3, Prop::C09 | Prop::C07 => 1, _ => 2 }, 4) {
-        return t + &gen_clean_answer(rng, g);
+        return t + &gen_clean_answer(rng, g, prop);
     }
     // version
     let v = match rng.below(12) {
@@ -1220,7 +1344,8 @@ fn gen_incoming(rng: &mut Rng, g: &GenCfg, prop: Prop, since_timer_ns: &mut u64)
             _ => 1,
         };
         let clen = match rng.below(8) {
-            0 => *rng.pick(&[1usize, 4, 90, 91, 181, 362, 724, 725, 800]),
+            // (C13: at least 4 bytes, so that the counter tag keeps delivered cookies distinct)
+            0 => (*rng.pick(&[1usize, 4, 90, 91, 181, 362, 724, 725, 800])).max(if prop == Prop::C13 { 4 } else { 0 }),
             _ => 100,
         };
         let cookies: Vec<String> = (0..ncook).map(|_| format!("ck:{}", clen)).collect();
@@ -1275,7 +1400,7 @@ fn gen_incoming(rng: &mut Rng, g: &GenCfg, prop: Prop, since_timer_ns: &mut u64)
 }
 
 /// a well-formed, authentic answer to the pending request (benign fields randomised)
-fn gen_clean_answer(rng: &mut Rng, g: &GenCfg) -> String {
+fn gen_clean_answer(rng: &mut Rng, g: &GenCfg, prop: Prop) -> String {
     let stratum = match rng.below(8) {
         0 => 1,
         1 => 16,
@@ -1300,9 +1425,33 @@ fn gen_clean_answer(rng: &mut Rng, g: &GenCfg) -> String {
             _ => 1,
         };
         let clen = if rng.chance(1, 8) { *rng.pick(&[1usize, 90, 91, 181, 362, 724, 725]) } else { 100 };
-        let cookies: Vec<String> = (0..ncook).map(|_| format!("ck:{}", clen)).collect();
+        let cookies: Vec<String> = if prop == Prop::C13 {
+            // 0-12 cookies; sizes: one size for the whole response, or assorted
+            let k = rng.usize(0, 12);
+            // mostly small cookies (cheap), the full size table one time in four
+            let common = if rng.chance(3, 4) { *rng.pick(&[4usize, 16, 64, 100, 100, 104]) } else { *rng.pick(C13_SIZES) };
+            let assorted = rng.chance(1, 4);
+            // (the whole datagram has to stay a sane UDP payload: at most ~3000 bytes of cookies)
+            let mut budget = 3000usize;
+            (0..k)
+                .filter_map(|_| {
+                    let l = if assorted { *rng.pick(C13_SIZES) } else { common };
+                    if l <= budget {
+                        budget -= l;
+                        Some(format!("ck:{}", l))
+                    } else {
+                        None
+                    }
+                })
+                .collect()
+        } else {
+            (0..ncook).map(|_| format!("ck:{}", clen)).collect()
+        };
         let e = if cookies.is_empty() { "-".to_string() } else { cookies.join(",") };
-        t.push_str(&format!(" d.auth=s2c d.A=uid:match,draft{} d.E={} d.U=-", rr, e));
+        // (C13: now and then a cookie field also in the authenticated / untrusted list — never to be stored)
+        let extra_a = if prop == Prop::C13 && rng.chance(1, 10) { ",ck:100" } else { "" };
+        let extra_u = if prop == Prop::C13 && rng.chance(1, 10) { "ck:100" } else { "-" };
+        t.push_str(&format!(" d.auth=s2c d.A=uid:match,draft{}{} d.E={} d.U={}", rr, extra_a, e, extra_u));
     } else {
         t.push_str(&format!(" d.auth=none d.A=- d.E=- d.U=draft{}", rr));
     }
@@ -1312,10 +1461,11 @@ fn gen_clean_answer(rng: &mut Rng, g: &GenCfg) -> String {
 fn gen_script(rng: &mut Rng, prop: Prop) -> Vec<String> {
     let (cfg, g) = gen_cfg(rng, prop);
     let mut ops = vec![cfg];
-    let n = rng.usize(5, if prop == Prop::C11 || prop == Prop::C12 { 60 } else { 40 });
+    let n = rng.usize(5, if prop == Prop::C11 || prop == Prop::C12 || prop == Prop::C13 { 60 } else { 40 });
     // probability (in %) that a poll gets a plain good answer right away
     let answer_rate = match prop {
         Prop::C11 => *rng.pick(&[0u64, 30, 60, 95, 100]),
+        Prop::C13 => *rng.pick(&[40u64, 80, 95, 100]),
         _ => *rng.pick(&[50u64, 80, 95]),
     };
     let mut since_timer: u64 = 0;
@@ -1407,6 +1557,11 @@ fn c14_case(idx: u64) -> Vec<String> {
 
 fn stream_prop(stream: &str) -> Prop {
     match stream {
+        "c13_incoming" => Prop::C13,
+        // byte mode (the model computes the packet record from the datagram bytes): generator and oracle of ...
+        "sm_bytes" => Prop::C07,
+        "sm_bytes_c13" => Prop::C13,
+        "sm_bytes_c08" => Prop::C08,
         "sm_c07" | "c07_witness" => Prop::C07,
         "sm_c08" => Prop::C08,
         "sm_c09" => Prop::C09,
